@@ -261,6 +261,23 @@ Fixpoint emit_loop (all : list (bool * list N)) (merged : list (list N)) (rs : l
 
 Definition emit_names (rules : list (bool * list N)) : list (list N) := emit_loop rules [] rules.
 
+(* ---------- collect_tags / render_tag_helpers (codegen.rs:1470-1600) ---------- *)
+(* [uses] = the CDDL identifiers of the tagged prelude types (tdate time uri b64url b64legacy regexp) carried by
+   the struct fields, in definition order then field order. The helper modules are emitted once per identifier, in
+   the order of first use: `<ident>` followed by `<ident>_opt`, with '-' replaced by '_'. *)
+Fixpoint collect_tags_loop (acc : list (list N)) (uses : list (list N)) : list (list N) :=
+  match uses with
+  | [] => acc
+  | t :: r => if memb t acc then collect_tags_loop acc r else collect_tags_loop (acc ++ [t]) r
+  end.
+
+Definition collect_tags (uses : list (list N)) : list (list N) := collect_tags_loop [] uses.
+
+Definition tag_module (ident : list N) : list N := map (fun c => if c =? DASH then US else c) ident.
+
+Definition helper_modules (uses : list (list N)) : list (list N) :=
+  flat_map (fun t => [tag_module t; tag_module t ++ s2n "_opt"]) (collect_tags uses).
+
 (* ---------- identifier shape (specification side) ---------- *)
 
 Definition ident_char (c : N) : bool := is_alnum c || (c =? US).
@@ -328,6 +345,7 @@ Definition fields_render (ks : list keydesc) : list N :=
   | None => s2n "EFUEL"
   end.
 Definition emit_render (rules : list (bool * list N)) : list N := sep_concat [44] (map hex_str (emit_names rules)).
+Definition helpers_render (uses : list (list N)) : list N := sep_concat [44] (map hex_str (helper_modules uses)).
 
 (* classifiers of the open findings, evaluated by the oracle on a failing case *)
 Definition b2n (b : bool) : N := if b then 49 else 48.
